@@ -13,7 +13,7 @@ import gemato.cli
 import gemato.exceptions as GE
 from gemato.exceptions import GematoException
 
-from .seam import SimStepLimit
+from .seam import SimStepLimit, orig as _oo
 
 INTERNAL_OK = ()   # exception classes never accepted
 
@@ -194,3 +194,23 @@ def cli_as_call(c):
     if c['kind'] == 'EXIT':
         return ('GE', 'cli-exit-%s' % c['rc'], None)
     return (c['kind'], c['name'], c.get('exc'))
+
+
+def genuine_oserror(e):
+    fn = getattr(e, 'filename', None)
+    if e.errno is None:
+        return False
+    if fn is None:
+        return False
+    for probe in (lambda: _oo['os.stat'](fn), lambda: _oo['os.close'](_oo['os.open'](fn, os.O_RDONLY | os.O_NONBLOCK)),
+                  lambda: _oo['os.listdir'](fn), lambda: _oo['open'](fn, 'rb').close()):
+        try:
+            probe()
+        except OSError as e2:
+            if e2.errno == e.errno:
+                return True
+        except ValueError:
+            return False
+    return False
+
+
